@@ -166,6 +166,13 @@ class Contract(object):
         self.native_checks_.append(fn)
         return self
 
+    def native_replay(self, fn):
+        """fn(obligation, counterexample) -> dict(confirmed: bool|None, ...).  Replaces the generic
+        replay for contracts whose inputs are abstract (a store, a session): the function builds
+        the real environment the counterexample describes and runs the real code in it."""
+        self.native_replay_ = fn
+        return self
+
     def effect(self, fn):
         """fn(path, locals): native hook run when this contract is applied at a call site (before
         any outcome is chosen); used to record ghost events such as ('access', op, uid)."""
